@@ -282,6 +282,9 @@ type SubType struct {
 	Keys         []string // selection set texts; non-empty = entity in this subgraph
 	Fields       []*SubField
 	NoImplements bool // do not print "implements" in this subgraph (interface unknown here)
+	// Unresolvable: the keys are declared with resolvable: false (a reference-only stub); the
+	// gateway must not send _entities requests for this type to this subgraph.
+	Unresolvable bool
 }
 
 func (t *SubType) Field(name string) *SubField {
